@@ -29,7 +29,7 @@
         `.*`      greedy, never consumes a newline, gives characters back one at a time   -> re_match
         `[\w]+`   greedy, gives characters back one at a time                             -> wgroup
         `$`       end of string, or just before a newline that is the last character      -> at_end            *)
-From Coq Require Import List Bool Ascii String Arith ZArith.
+From Coq Require Import List Bool Ascii String Arith ZArith DecimalString.
 Import ListNotations.
 Open Scope list_scope.
 
@@ -416,14 +416,39 @@ Definition match_criteria (g : grp) (name : str) (group ctx : list (str * pv)) :
       end
   end.
 
-(* _extract_aggregation_type / _extract_imputation_method: name first, then the option *)
+(* str(v) for the scalars that can reach it; None = not modelled (containers, Features) *)
+Definition dec (z : Z) : str := lit (NilZero.string_of_int (Z.to_int z)).
+Definition py_str (v : pv) : option str :=
+  match v with
+  | PStr s => Some s
+  | PInt z => Some (dec z)
+  | PBool true => Some (lit "True")
+  | PBool false => Some (lit "False")
+  | PNone => Some (lit "None")
+  | _ => None
+  end.
+
+(* _extract_aggregation_type (g_name_strict = false): name first, then str(option), nothing is checked here.
+   _extract_imputation_method / get_imputation_method (g_name_strict = true): a name containing "__" must parse,
+   and the method, wherever it comes from, must be one of the mapped methods (ValueError otherwise).            *)
 Definition extract_op (g : grp) (name : str) (group ctx : list (str * pv)) : res pv :=
   match parse_feature_name (g_sufs g) name with
-  | Parsed op _ => Ok (PStr op)
+  | Parsed op _ =>
+      if g_name_strict g && negb (existsb (str_eqb op) (g_vocab g)) then Err EValue else Ok (PStr op)
   | PErr => Err EValue
   | NoParse =>
-      if g_name_strict g && has_dunder name then Err EValue
-      else Ok (options_get (g_key g) group ctx)
+      let v := options_get (g_key g) group ctx in
+      if g_name_strict g then
+        if has_dunder name then Err EValue
+        else match v with
+             | PNone => Ok PNone
+             | _ => if negb (hashable v) then Err EType
+                    else if in_vocab (g_vocab g) v then Ok v else Err EValue
+             end
+      else match v with
+           | PNone => Ok PNone
+           | _ => match py_str v with Some s => Ok (PStr s) | None => Err EOther end
+           end
   end.
 
 (* ---------------------------------------------------------------------------------------------------------- *)
